@@ -76,6 +76,7 @@ var h3specs = []h3spec{
 	{Name: "reuse-upload-bodiless", Reuse: true, Upload: true, Bodiless: true},
 	{Name: "send-header-fails", Reuse: true, Upload: true, BadHost: true},
 	{Name: "stream-limit-wait-upload", Reuse: true, Upload: true, Bodiless: true, Limit: true},
+	{Name: "early-response-upload-stalled", Reuse: true, Upload: true, EarlyRsp: true},
 }
 
 var retrySpecs = []retrySpec{
@@ -202,7 +203,9 @@ func runJob(j job, seed uint64, quick bool) (out []result) {
 		}
 		steps := h3steps(sp)
 		n := len(steps)
-		add(runH3(sp, "none", n, false))
+		if !sp.EarlyRsp { // (the upload never completes in that scenario: no run without an injection)
+			add(runH3(sp, "none", n, false))
+		}
 		for pos := 0; pos <= n; pos++ {
 			if sp.Limit && pos > 1 {
 				// the scenario is about the wait for a stream; the later phases are driven without a
@@ -215,7 +218,7 @@ func runJob(j job, seed uint64, quick bool) (out []result) {
 			}
 		}
 		for pos := 1; pos <= n; pos++ {
-			if sp.Limit {
+			if sp.Limit || sp.EarlyRsp {
 				break
 			}
 			if len(steps[pos-1].labels) == 0 || rng.Intn(racyEvery) != 0 {
